@@ -96,8 +96,9 @@ func inLayerEdges(upper, lower *graph.Layer) []*graph.Edge {
 	return es
 }
 
-func bit(a, b int) uint64 {
-	return (1 << a) | (1 << b)
+// identifies an unordered pair of layer indices; a bit mask would lose indices above 63
+func bit(a, b int) [2]int {
+	return [2]int{min(a, b), max(a, b)}
 }
 
 // returns the layers as a tuple ordered by number of nodes
